@@ -9,6 +9,9 @@
 (*   neg2   q t soaTtl soaMin      (caching-client layer) upstream answered    *)
 (*                                 NXDOMAIN/NODATA with this SOA               *)
 (*   clear                         (caching-client layer) clear_cache()        *)
+(*   chain  q t cnames finals      (caching-client layer, aliases folded away) *)
+(*                                 upstream answered with a chain of aliases   *)
+(*                                 (their TTLs) ending in these records        *)
 (* t is in ticks of half a second.  The monitor re-computes, with the          *)
 (* operators of CacheOps, what the specification allows for every get.         *)
 EXTENDS CacheOps, TLC, Json, IOUtils
@@ -40,6 +43,26 @@ Allowed ==
     \/ /\ e.ev = "neg2"
        /\ store' = Put(Key(e.q), [kind |-> "neg", at |-> e.t, orig |-> <<>>,
                                   neg |-> NegTtlFromSoa(e.soaTtl, e.soaMin)])
+    \* an alias chain of which only the final records are kept: the entry still stands for the whole
+    \* chain -- "the smallest TTL among the entry's records of the queried type (or CNAME)"
+    \/ /\ e.ev = "chain"
+       /\ store' = Put(Key(e.q), [kind |-> "chain", at |-> e.t, orig |-> e.finals, cn |-> e.cnames, neg |-> 0 - 1])
+    \/ /\ e.ev = "get" /\ e.res = "pos"
+       /\ Key(e.q) \in DOMAIN store
+       /\ LET s == store[Key(e.q)]
+              chainMin == SetMin({s.cn[i] : i \in 1..Len(s.cn)})
+              aliases == [i \in 1..Len(s.cn) |-> [sec |-> "an", type |-> "CNAME", ttl |-> s.cn[i]]]
+              \* a final record can be reported with the smallest TTL on the way to it, or with its own
+              folded == [i \in 1..Len(s.orig) |-> [s.orig[i] EXCEPT !.ttl = Lo(@, chainMin)]]
+              tf == HitTtls(StoredRecs(cfg, folded), s.at, e.t)
+              to == HitTtls(StoredRecs(cfg, s.orig), s.at, e.t)
+          IN
+          /\ s.kind = "chain"
+          /\ s.at <= e.t
+          /\ ~Late(s.at, e.t, PosLifeHi(cfg, e.q, aliases \o s.orig))
+          /\ Len(e.ttls) = Len(s.orig)
+          /\ \A i \in 1..Len(e.ttls) : e.ttls[i] = tf[i] \/ e.ttls[i] = to[i]
+       /\ store' = store
     \* the caller asked to flush the cache
     \/ /\ e.ev = "clear"
        /\ store' = [k \in {} |-> 0]
@@ -74,8 +97,12 @@ Expected ==
     IF e.ev = "get" /\ Key(e.q) \in DOMAIN store
     THEN LET s == store[Key(e.q)] IN
          [kind |-> s.kind, at |-> s.at,
-          lifeHi |-> IF s.kind = "pos" THEN PosLifeHi(cfg, e.q, s.orig) ELSE NegLifeHi(cfg, e.q, s.neg),
-          ttls |-> IF s.kind = "pos" THEN HitTtls(StoredRecs(cfg, s.orig), s.at, e.t) ELSE <<>>]
+          lifeHi |-> IF s.kind = "pos" THEN PosLifeHi(cfg, e.q, s.orig)
+                     ELSE IF s.kind = "chain"
+                     THEN PosLifeHi(cfg, e.q, [i \in 1..Len(s.cn) |-> [sec |-> "an", type |-> "CNAME", ttl |-> s.cn[i]]] \o s.orig)
+                     ELSE NegLifeHi(cfg, e.q, s.neg),
+          ttls |-> IF s.kind = "pos" THEN HitTtls(StoredRecs(cfg, s.orig), s.at, e.t) ELSE <<>>,
+          entry |-> s]
     ELSE [kind |-> "none"]
 
 Reject ==
